@@ -13,11 +13,55 @@ from vlib.core import hx, unhx
 
 
 def render(kind, out):
+    """exit 255 (runtime error) and exit 2 (clap usage error) are both "an ordinary error"; an error
+    must not come with output on stdout"""
     if kind == "ok":
         return "ok " + hx(out)
-    if kind in ("err", "usage") and out:
-        return kind + "-with-output " + hx(out)
+    if kind in ("err", "usage"):
+        return "err-with-output " + hx(out) if out else "err"
     return kind
+
+
+def utf8(h):
+    return unhx(h).decode("utf-8")
+
+
+def account_args(parts, meta, env):
+    """parts: mnemonic pw selector (hex) -> argv fragment; meta['via'] chooses flag or environment per option"""
+    via = meta.get("via", {})
+    argv = []
+    mn, pw, sel = utf8(parts[0]), utf8(parts[1]), parts[2]
+    if via.get("mnemonic") == "env":
+        env["MNEMONIC"] = mn
+    else:
+        argv += ["--mnemonic", mn] if via.get("mnemonic") != "short" else ["-m", mn]
+    if pw != "" or via.get("password_explicit"):
+        if via.get("password") == "env":
+            env["PASSWORD"] = pw
+        else:
+            argv += ["--password=" + pw]
+    argv += selector_args(sel, via, env, "ACCOUNT_INDEX", "HD_PATH", "--account-index", "--hd-path")
+    return argv
+
+
+def selector_args(sel, via, env, env_idx, env_path, flag_idx, flag_path):
+    argv = []
+    if sel == "default":
+        return argv
+    kind, *rest = sel.split(":")
+    if kind in ("idx", "both"):
+        t = utf8(rest[0])
+        if via.get("index") == "env" and env_idx:
+            env[env_idx] = t
+        else:
+            argv += [flag_idx + "=" + t]
+    if kind in ("path", "both"):
+        t = utf8(rest[-1])
+        if via.get("path") == "env" and env_path:
+            env[env_path] = t
+        else:
+            argv += [flag_path + "=" + t]
+    return argv
 
 
 def run_simple(argv, stdin=b"", env=None, via_file=False, timeout=60, binary=None):
@@ -49,5 +93,66 @@ def run_cli(case):
     if op == "cli.hex_decode":
         argv = ["hex", "decode"] + ([] if meta.get("default_arg") else ["@INPUT@"])
         kind, out, _ = run_simple(argv, unhx(parts[1]), via_file=meta.get("via_file", False))
+        return render(kind, out)
+    env = {}
+    vf = meta.get("via_file", False)
+    if op in ("cli.address", "cli.export", "cli.public_key"):
+        argv = [{"cli.address": "address", "cli.export": "export", "cli.public_key": "public-key"}[op]] + account_args(parts[1:4], meta, env)
+        kind, out, _ = run_simple(argv, env=env)
+        return render(kind, out)
+    if op == "cli.hash_data":
+        kind, out, _ = run_simple(["hash", "data", "@INPUT@"], unhx(parts[1]), via_file=vf)
+        return render(kind, out)
+    if op == "cli.hash_message":
+        kind, out, _ = run_simple(["hash", "message", "@INPUT@"], unhx(parts[1]), via_file=vf)
+        return render(kind, out)
+    if op == "cli.hash_tx":
+        argv = ["hash", "transaction"] + ([] if parts[2] == "none" else ["--signature=" + utf8(parts[2])]) + ["@INPUT@"]
+        kind, out, _ = run_simple(argv, unhx(parts[1]), via_file=vf)
+        return render(kind, out)
+    if op == "cli.hash_td":
+        argv = ["hash", "typeddata"] + (["--message-hash"] if parts[2] == "1" else []) + ["@INPUT@"]
+        kind, out, _ = run_simple(argv, unhx(parts[1]), via_file=vf)
+        return render(kind, out)
+    if op == "cli.sign_message":
+        argv = ["sign"] + account_args(parts[1:4], meta, env) + ["message", "@INPUT@"]
+        kind, out, _ = run_simple(argv, unhx(parts[4]), env=env, via_file=vf)
+        return render(kind, out)
+    if op == "cli.sign_raw":
+        argv = ["sign"] + account_args(parts[1:4], meta, env) + ["raw", "--", utf8(parts[4])]
+        kind, out, _ = run_simple(argv, env=env)
+        return render(kind, out)
+    if op == "cli.sign_td":
+        argv = ["sign"] + account_args(parts[1:4], meta, env) + ["typeddata", "@INPUT@"]
+        kind, out, _ = run_simple(argv, unhx(parts[4]), env=env, via_file=vf)
+        return render(kind, out)
+    if op == "cli.sign_tx":
+        argv = ["sign"] + account_args(parts[1:4], meta, env) + ["transaction"] + (["--signature-only"] if parts[5] == "1" else []) + \
+            (["--allow-missing-relay-protection"] if parts[6] == "1" else []) + ["@INPUT@"]
+        kind, out, _ = run_simple(argv, unhx(parts[4]), env=env, via_file=vf)
+        return render(kind, out)
+    if op == "cli.new":
+        argv = ["new", ("--length=" if meta.get("long", True) else "-n") + utf8(parts[1])] if parts[1] != "-" or True else ["new"]
+        if not meta.get("long", True):
+            argv = ["new", "-n", utf8(parts[1])]
+        shim = {"HDW_SHIM_STREAM": "" if parts[2] == "-" else parts[2]}
+        log = None
+        if meta.get("log"):
+            fd, log = tempfile.mkstemp(prefix="shimlog", dir=os.path.join(core.CACHE, "tmp"))
+            os.close(fd)
+            shim["HDW_SHIM_LOG"] = log
+        kind, out, err, _ = core.cli_exec(argv, shim=shim)
+        if log:
+            with open(log) as f:
+                meta["requests"] = [int(x) for x in f.read().split()]
+            os.unlink(log)
+        return render(kind, out)
+    if op == "cli.new_vanity":
+        argv = ["new", "--length=" + utf8(parts[1]), "--vanity-prefix=" + utf8(parts[2]), "-j", str(meta.get("threads", 0))]
+        if utf8(parts[3]) != "":
+            argv += ["--vanity-password=" + utf8(parts[3])]
+        argv += selector_args(parts[4], {}, env, None, None, "--vanity-account-index", "--vanity-hd-path")
+        shim = {"HDW_SHIM_STREAM": "" if parts[5] == "-" else parts[5]}
+        kind, out, err, _ = core.cli_exec(argv, shim=shim, timeout=meta.get("timeout", 120))
         return render(kind, out)
     return "harness-error unknown cli op " + op
